@@ -343,6 +343,18 @@ def body(chk, db, cfgname):
         F = Formula()
         L4 = [x for x in _subkeys(k) if x[0] == "op" and x[1] == "[]" and x[2][:2] == ("var", Ld)]
         if not L4:
+            # the list may be walked by an iterator / range-for instead of an index: the element expression of such a loop
+            from pv.loops import covers as _covers, element_keys as _ek
+            Lvar = ("var", Ld, ctx.decls[Ld]["n"])
+            for jL, nL in f.walk(f.body):
+                if nL["k"] in ("for", "while", "forrange"):
+                    shpL = loop_shape(f, ctx, jL)
+                    if shpL.get("kind") in ("iter", "range") and shpL.get("bound") is not None and shpL["bound"][:2] == Lvar[:2]:
+                        eks = _ek(shpL, shpL["bound"])
+                        L4 = [x for x in _subkeys(k) if x in eks]
+                        if L4:
+                            break
+        if not L4:
             raise AnalysisBroken("compute: index4 is not read from Index4List")
         idx4 = L4[0]
         idx2s = [lh.idx(i2ket), lh.idx(i2bra)]
